@@ -350,6 +350,28 @@ impl Engine for C10 {
             }
             Batch::HexMacro(a) => {
                 let mut f = Fnv::new();
+                if *a == b'0' {
+                    // repeat groups of bytes >= 0x80 (two bytes each in the stored macro) that overflow the macro space, starting at an even
+                    // and at an odd offset: the stored macro must stay a valid string (observed by invoking it and by the checksum report)
+                    for prefix in ["", "41", "4142"] {
+                        for (n, unit) in [(20000u32, "E9"), (40000, "E9"), (20000, "C3A9"), (11000, "E9E9FF"), (65535, "80")] {
+                            let mut buf = Buffer::new((80, 25));
+                            buf.is_terminal_buffer = true;
+                            let mut caret = Caret::default();
+                            let mut parser = ansi::Parser::default();
+                            let s = format!("\x1bP1;0;1!z{prefix}!{n};{unit};\x1b\\\x1b[1*z\x1b[?63;1n");
+                            ctx.count("evaluations", 1);
+                            ctx.count("transitions", s.len() as u64);
+                            for c in s.bytes() {
+                                if let Err(p) = catch(|| parser.print_char(&mut buf, 0, &mut caret, c as char)) {
+                                    ctx.panic(&p, json!({"macro": s}));
+                                    break;
+                                }
+                            }
+                            check_buffer(&buf, "hex-macro-repeat-overflow", json!({"macro": s}), ctx);
+                        }
+                    }
+                }
                 for b in 0..=255u8 {
                     if *a == 0x1b || b == 0x1b {
                         continue;
